@@ -1,5 +1,6 @@
 // C09 harness: runs the REAL FEAT::Solver::MultiGrid / MultiGridHierarchy (kernel/solver/multigrid.hpp) with
 // SparseMatrixCSR<Q>, UnitFilter<Q>, LAFEM::Transfer (kernel/lafem/transfer.hpp) at the exact rational type Q.
+// The system matrices are logging subclasses of the real SparseMatrixCSR (defect computations are part of the log).
 // Smoothers and coarse solvers are mock SolverBase objects that log (role, level) and apply a fixed exact matrix;
 // the transfer is a thin logging wrapper around the real LAFEM::Transfer::rest/prol.
 // Protocol: see lean/FeatModel/Driver/C09.lean (same line in, same line out).
@@ -7,6 +8,7 @@
 //   mg|mgr NL n_0 .. n_{NL-1} { A[n*n]  nf idx*  [P[n*nc] R[nc*n] unless last]  4 x (flag [M[n*n]]) }^NL
 //      napp { cycle cgc top crs  dlen d* }^napp        (slots: pre, post, peak, coarse; level 0 = finest)
 //   mgd ...            the same at double (results printed as hex floats; conformance stream, no model counterpart)
+//   rate2d NL cycle cgc  the same measurement on 2-D Poisson (5-point stencil)
 //   rate NL cycle cgc  (double precision measurement, thorough tier only; no model counterpart)
 #include <forkcase.hpp>
 #include <exact_q.hpp>
@@ -19,6 +21,7 @@
 #include <memory>
 #include <deque>
 #include <cstdio>
+#include <algorithm>
 
 using namespace FEAT;
 using verif::Cur;
@@ -48,6 +51,25 @@ public:
   bool prol(Vector& f, const Vector& c) const { g_log.push_back("P" + std::to_string(level)); return Base::prol(f, c); }
   bool rest_send(const Vector& f) const { return Base::rest_send(f); }
   bool prol_recv(Vector& f) const { return Base::prol_recv(f); }
+};
+
+// logging system matrix: the real SparseMatrixCSR does the work; the two apply() overloads MultiGrid uses are logged:
+//   D<l> = apply(r, x, y, alpha)  (defect computation rhs - A*sol),   M<l> = apply(r, x)  (tmp = A*cor)
+template<typename DT_>
+class LogMatrix : public Types<DT_>::Matrix
+{
+public:
+  typedef typename Types<DT_>::Matrix Base;
+  typedef typename Types<DT_>::Vector Vector;
+  Index level;
+  LogMatrix(Index lvl, Base&& m) : Base(std::move(m)), level(lvl) {}
+  LogMatrix(LogMatrix&& o) : Base(std::move(static_cast<Base&>(o))), level(o.level) {}
+  void apply(Vector& r, const Vector& x) const { g_log.push_back("M" + std::to_string(level)); Base::apply(r, x); }
+  void apply(Vector& r, const Vector& x, const Vector& y, const DT_ alpha = DT_(1)) const
+  {
+    g_log.push_back("D" + std::to_string(level));
+    Base::apply(r, x, y, alpha);
+  }
 };
 
 // mock smoother / coarse solver: cor := M * def, logged
@@ -116,7 +138,7 @@ static Solver::MultiGridAdaptCGC cgc(long long k)
 template<typename DT>
 static void handle_mg(Cur& c, std::ostream& o)
 {
-  typedef typename Types<DT>::Matrix Matrix; typedef typename Types<DT>::Vector Vector; typedef typename Types<DT>::Filter Filter;
+  typedef LogMatrix<DT> Matrix; typedef typename Types<DT>::Vector Vector; typedef typename Types<DT>::Filter Filter;
   typedef LogTransfer<DT> Transfer;
   typedef Solver::MultiGridHierarchy<Matrix, Filter, Transfer> Hier;
   typedef Solver::MultiGrid<Matrix, Filter, Transfer> MG;
@@ -131,7 +153,7 @@ static void handle_mg(Cur& c, std::ostream& o)
   for(Index l = 0; l < nl; ++l) n[l] = c.idx();
   for(Index l = 0; l < nl; ++l)
   {
-    mats.push_back(make_csr<DT>(n[l], n[l], read_q<DT>(c, n[l]*n[l])));
+    mats.emplace_back(l, make_csr<DT>(n[l], n[l], read_q<DT>(c, n[l]*n[l])));
     filts.emplace_back(n[l]);
     auto fi = c.idxlist();
     for(auto i : fi) filts.back().add(Index(i), DT(0));
@@ -198,7 +220,7 @@ static void handle_mg(Cur& c, std::ostream& o)
 static void handle_rate(Cur& c, std::ostream& o)
 {
   typedef double DT;
-  typedef Types<DT>::Matrix Matrix; typedef Types<DT>::Vector Vector; typedef Types<DT>::Filter Filter;
+  typedef LogMatrix<DT> Matrix; typedef Types<DT>::Vector Vector; typedef Types<DT>::Filter Filter;
   typedef LogTransfer<DT> Transfer;
   typedef Solver::MultiGridHierarchy<Matrix, Filter, Transfer> Hier;
   typedef Solver::MultiGrid<Matrix, Filter, Transfer> MG;
@@ -223,7 +245,7 @@ static void handle_rate(Cur& c, std::ostream& o)
       if(i + 1 < m) a[i*m + i + 1] = -1.0 / h;
       jac[i*m + i] = 0.7 * h / 2.0;
     }
-    mats.push_back(make_csr<DT>(m, m, a));
+    mats.emplace_back(l, make_csr<DT>(m, m, a));
     filts.emplace_back(m);
     if(l + 1 < nl)
     {
@@ -293,6 +315,133 @@ static void handle_rate(Cur& c, std::ostream& o)
   hier->done();
 }
 
+// ---------------------------------------------------------------------------------------------------------------
+// measured only: 2-D Poisson (5-point stencil = P1 stiffness matrix on a regular triangulation of the unit square,
+// (2^j - 1)^2 interior nodes, bilinear interpolation, restriction = transpose, two damped Jacobi steps pre/post,
+// one unknown on the coarsest level), real MultiGrid at double with all three coarse grid correction modes.
+// ---------------------------------------------------------------------------------------------------------------
+template<typename DT_>
+static typename Types<DT_>::Matrix make_csr_rows(Index rows, Index cols, const std::vector<std::vector<std::pair<Index, DT_>>>& r)
+{
+  Index nnz = 0;
+  for(auto& x : r) nnz += Index(x.size());
+  LAFEM::DenseVector<Index, Index> cidx(nnz), rptr(rows + 1);
+  LAFEM::DenseVector<DT_, Index> val(nnz);
+  Index p = 0;
+  for(Index i = 0; i < rows; ++i)
+  {
+    rptr(i, p);
+    for(auto& e : r[i]) { cidx(p, e.first); val(p, e.second); ++p; }
+  }
+  rptr(rows, p);
+  return typename Types<DT_>::Matrix(rows, cols, cidx, val, rptr);
+}
+
+// two damped Jacobi steps (diag = 4) as one linear operator, applied with the sparse matrix
+class Jacobi2 : public Solver::SolverBase<Types<double>::Vector>
+{
+public:
+  typedef Types<double>::Vector Vector;
+  const Types<double>::Matrix& mat; double om; std::string tag;
+  Jacobi2(const Types<double>::Matrix& m, double w, const std::string& t) : mat(m), om(w), tag(t) {}
+  virtual String name() const override { return "Jacobi2"; }
+  virtual Solver::Status apply(Vector& cor, const Vector& def) override
+  {
+    g_log.push_back(tag);
+    Vector t(def.size()), r(def.size());
+    for(Index i = 0; i < def.size(); ++i) t(i, om / 4.0 * def(i));
+    mat.apply(r, t, def, -1.0);
+    for(Index i = 0; i < def.size(); ++i) cor(i, t(i) + om / 4.0 * r(i));
+    return Solver::Status::success;
+  }
+};
+
+static void handle_rate2d(Cur& c, std::ostream& o)
+{
+  typedef double DT;
+  typedef LogMatrix<DT> Matrix; typedef Types<DT>::Vector Vector; typedef Types<DT>::Filter Filter;
+  typedef LogTransfer<DT> Transfer;
+  typedef Solver::MultiGridHierarchy<Matrix, Filter, Transfer> Hier;
+  typedef Solver::MultiGrid<Matrix, Filter, Transfer> MG;
+  typedef Solver::SolverBase<Vector> SB;
+  Index nl = c.idx();
+  long long cy = c.i64(), cg = c.i64();
+  std::vector<Index> m(nl);
+  for(Index l = 0; l < nl; ++l) m[l] = (Index(1) << (nl - l)) - 1;   // nodes per direction, coarsest: 1
+  std::deque<Matrix> mats; std::deque<Filter> filts; std::deque<Transfer> trans;
+  std::vector<std::array<std::shared_ptr<SB>, 4>> sol(nl);
+  for(Index l = 0; l < nl; ++l)
+  {
+    Index k = m[l], n = k*k;
+    std::vector<std::vector<std::pair<Index, DT>>> rows(n);
+    for(Index j = 0; j < k; ++j) for(Index i = 0; i < k; ++i)
+    {
+      auto& r = rows[j*k + i];
+      if(j > 0) r.push_back({(j-1)*k + i, -1.0});
+      if(i > 0) r.push_back({j*k + i - 1, -1.0});
+      r.push_back({j*k + i, 4.0});
+      if(i + 1 < k) r.push_back({j*k + i + 1, -1.0});
+      if(j + 1 < k) r.push_back({(j+1)*k + i, -1.0});
+    }
+    mats.emplace_back(l, make_csr_rows<DT>(n, n, rows));
+    filts.emplace_back(n);
+  }
+  for(Index l = 0; l + 1 < nl; ++l)
+  {
+    Index k = m[l], kc = m[l+1], n = k*k, nc = kc*kc;
+    std::vector<std::vector<std::pair<Index, DT>>> pr(n), rr(nc);
+    const double w1[3] = {0.5, 1.0, 0.5};
+    for(Index jc = 0; jc < kc; ++jc) for(Index ic = 0; ic < kc; ++ic)
+      for(int dj = -1; dj <= 1; ++dj) for(int di = -1; di <= 1; ++di)
+      {
+        Index jf = Index(int(2*jc + 1) + dj), i_f = Index(int(2*ic + 1) + di);
+        double w = w1[dj + 1] * w1[di + 1];
+        pr[jf*k + i_f].push_back({jc*kc + ic, w});
+        rr[jc*kc + ic].push_back({jf*k + i_f, w});
+      }
+    for(auto& r : pr) std::sort(r.begin(), r.end());
+    for(auto& r : rr) std::sort(r.begin(), r.end());
+    trans.emplace_back(l, make_csr_rows<DT>(n, nc, pr), make_csr_rows<DT>(nc, n, rr));
+    sol[l][0] = std::make_shared<Jacobi2>(mats[l], 0.8, "a" + std::to_string(l));
+    sol[l][1] = std::make_shared<Jacobi2>(mats[l], 0.8, "b" + std::to_string(l));
+  }
+  sol[nl-1][3] = std::make_shared<MockSolver<DT>>("c" + std::to_string(nl-1), 1, std::vector<DT>(1, 0.25));
+  auto hier = std::make_shared<Hier>(nl);
+  for(Index l = 0; l < nl; ++l)
+  {
+    if(l + 1 < nl) hier->push_level(mats[l], filts[l], trans[l], sol[l][0], sol[l][1], sol[l][2], sol[l][3]);
+    else hier->push_level(mats[l], filts[l], sol[l][3]);
+  }
+  hier->init();
+  MG mg(hier, cyc(cy), 0, -1);
+  mg.set_adapt_cgc(cgc(cg));
+  mg.init();
+  Index n = m[0]*m[0];
+  Vector x(n, 0.0), b(n), d(n), cor(n), xe(n);
+  unsigned s = 2024u;
+  for(Index i = 0; i < n; ++i) { s = s * 1103515245u + 12345u; xe(i, double((s >> 16) & 1023) / 512.0 - 1.0); }
+  mats[0].apply(b, xe);
+  double prev = b.norm2(), first = prev, last_rate = 0.0, worst = 0.0;
+  int its = 0;
+  for(int k = 0; k < 8; ++k)
+  {
+    mats[0].apply(d, x, b, -1.0);
+    mg.apply(cor, d);
+    x.axpy(cor);
+    mats[0].apply(d, x, b, -1.0);
+    double nd = d.norm2();
+    if(prev < 1e-13 * first) break;
+    last_rate = nd / prev;
+    if(last_rate > worst) worst = last_rate;
+    prev = nd; ++its;
+  }
+  char buf[128];
+  snprintf(buf, sizeof(buf), "RATE %u %d %.6f %.6f", unsigned(nl), its, worst, last_rate);
+  o << buf;
+  mg.done();
+  hier->done();
+}
+
 static void handle(const verif::Tokens& t, std::ostream& o)
 {
   Cur c(t);
@@ -300,6 +449,7 @@ static void handle(const verif::Tokens& t, std::ostream& o)
   if(op == "mg" || op == "mgr") handle_mg<Q>(c, o);
   else if(op == "mgd") handle_mg<double>(c, o);
   else if(op == "rate") handle_rate(c, o);
+  else if(op == "rate2d") handle_rate2d(c, o);
   else o << "BAD-OP";
 }
 
